@@ -71,7 +71,9 @@ def run(ctx):
             ctx.bad("C08.a", f"writer:{k}", f"to_dict no longer writes the key '{k}'", td.where)
             continue
         uncond = d["paths_with"] == d["paths_total"]
-        src_ok = any(exp in v for v in d["values"])
+        src_ok = all(_reads_attr(v.replace("str(np.dtype(self.dtype))", "self.dtype"), exp.lstrip("_")) or v == exp
+                     or (k == "binnings" and v == "[binning.to_dict() for binning in self._binnings]")
+                     or (k == "frequencies" and v == "None") for v in d["values"])
         ctx.check(uncond and src_ok, "C08.a", f"writer:{k}", f"written on all {d['paths_total']} paths from {exp}",
                   (f"key '{k}' is written only on {d['paths_with']} of {d['paths_total']} paths (a conditional write makes the "
                    "reader fall back to a default that is not the stored value)" if not uncond else
@@ -193,6 +195,8 @@ def run(ctx):
     ctx.check(got_.get(True) == {"np.asarray(frequencies, dtype=dtype)"} and "np.asarray(frequencies)" in (got_.get(False) or set()), "C08.a",
               "HistogramBase.__init__:explicit-dtype", "given contents are converted to the requested dtype; without one their own type decides",
               f"conversion of given frequencies per `dtype is not None`: {got_}", hinit.where)
+    from rules import c12
+    c12.check_default_init_values(ctx, "C08.a", m)    # stored metadata win over class defaults when the histogram is rebuilt
     kf = HB.methods["_kwargs_from_dict"]
     dim_if = [n for n in ast.walk(kf.node) if isinstance(n, ast.If) and "dimension" in U(n)]
     okdim = len(dim_if) == 1 and U(dim_if[0].test) == "len(kwargs['binnings']) > 2" and [U(b) for b in dim_if[0].body] == ["kwargs['dimension'] = len(kwargs['binnings'])"]
